@@ -54,6 +54,7 @@ type PathRun struct {
 	tags       map[string]bool
 	bounds     map[string]int64
 	cuts       map[string]int
+	replaced   map[string]bool
 
 	obligations, discharged, trivial int
 	symbolicAsserts                  int
